@@ -7,6 +7,7 @@ package main
 
 import (
 	"context"
+	"errors"
 	"fmt"
 	"io"
 	"net/http"
@@ -59,13 +60,13 @@ func onceCase(hseed uint64) {
 		mu.Unlock()
 	}
 	type plan struct {
-		kind   int // 0 value, 1 error value, 2 f sees its context cancelled
+		kind   int // 0 value, 1 error value, 2 f sees its context cancelled, 3 same but returns the error wrapped (as net/http does)
 		cancel bool
 		j1, j2 uint64
 	}
 	plans := make([]plan, n)
 	for g := range plans {
-		plans[g] = plan{kind: []int{0, 0, 1, 2, 2}[r.Intn(5)], cancel: r.Chance(1, 4), j1: r.U64(), j2: r.U64()}
+		plans[g] = plan{kind: []int{0, 0, 1, 2, 2, 3}[r.Intn(6)], cancel: r.Chance(1, 4), j1: r.U64(), j2: r.U64()}
 	}
 	errVal := make([]error, n)
 	for g := range errVal {
@@ -100,7 +101,7 @@ func onceCase(hseed uint64) {
 			p := plans[g]
 			ctx, cancel := context.WithCancel(context.Background())
 			defer cancel()
-			if p.cancel || p.kind == 2 {
+			if p.cancel || p.kind >= 2 {
 				go func() { jitter(p.j2); jitter(p.j2 >> 3); cancel() }()
 			}
 			jitter(p.j1)
@@ -119,15 +120,18 @@ func onceCase(hseed uint64) {
 				}
 				<-ctx.Done()
 				logf("c%d", g)
+				if p.kind == 3 {
+					return nil, fmt.Errorf("Get \"http://auth.test/token\": %w", ctx.Err())
+				}
 				return nil, ctx.Err()
 			})
 			switch {
 			case first:
-				if !called || p.kind == 2 || decode(res, err) != map[int]int{0: 100 + g, 1: 200 + g}[p.kind] {
+				if !called || p.kind >= 2 || decode(res, err) != map[int]int{0: 100 + g, 1: 200 + g}[p.kind] {
 					addFail("once-first-result", "goroutine %d got (true, %v, %v) which is not the result of its own function", g, res, err)
 				}
 			case called:
-				if p.kind != 2 || res != nil || err != ctx.Err() {
+				if p.kind < 2 || res != nil || !errors.Is(err, ctx.Err()) {
 					addFail("once-cancel-result", "goroutine %d ran f to a cancellation but got (false, %v, %v)", g, res, err)
 				}
 			case res == nil && err != nil && ctx.Err() != nil && err == ctx.Err():
@@ -324,21 +328,40 @@ func mixCase(hseed uint64) {
 		hints        []string
 		j            uint64
 		valid        bool
+		cancelFetch  bool // the caller's context is cancelled while its token request is in flight
+		cancel       context.CancelFunc
 	}
+	type jobKey struct{}
 	jobs := make([]job, n)
+	w.fetchHook = func(req *http.Request) error {
+		if jb, ok := req.Context().Value(jobKey{}).(*job); ok && jb.cancelFetch {
+			time.Sleep(300 * time.Microsecond)
+			jb.cancel()
+			return req.Context().Err()
+		}
+		return nil
+	}
 	for i := range jobs {
 		g := common.Pick(r, w.regs)
 		jobs[i] = job{g: g, repo: common.Pick(r, []string{"lib/a", "lib/a", "lib/b"}), method: common.Pick(r, []string{"GET", "GET", "DELETE"}),
 			hints: genHints(r), j: r.U64(), valid: w.validFor(g, oauth2) && g.mode != modeWeird}
+		if r.Chance(1, 6) {
+			jobs[i].cancelFetch = true
+			jobs[i].valid = false
+		}
 	}
 	results := make([]string, n)
 	var wg sync.WaitGroup
-	for i, jb := range jobs {
+	for i := range jobs {
+		jb := &jobs[i]
 		wg.Add(1)
-		go func(i int, jb job) {
+		go func(i int, jb *job) {
 			defer wg.Done()
 			jitter(jb.j)
-			ctx := context.Background()
+			ctx, cancel := context.WithCancel(context.Background())
+			defer cancel()
+			jb.cancel = cancel
+			ctx = context.WithValue(ctx, jobKey{}, jb)
 			if len(jb.hints) > 0 {
 				ctx = auth.WithScopesForHost(ctx, jb.g.host, clone(jb.hints)...)
 			}
@@ -377,7 +400,9 @@ func mixCase(hseed uint64) {
 		if c := w.perReq[fmt.Sprintf("%d", i)]; c > 3 {
 			run.OracleFail(id, "budget", fmt.Sprintf("concurrent mix %d: request %d was sent %d times to the registry", hseed, i, c), rep)
 		}
-		if jb.valid && !w.noScope && results[i] != "=ok" {
+		if jb.valid && results[i] == "=transport" {
+			run.OracleFail(id, "foreign-cancellation", fmt.Sprintf("concurrent mix %d (cache %s): request %d to %s was not cancelled and no send of it failed, but it ended with another request's cancellation", hseed, flavour, i, jb.g.host), rep)
+		} else if jb.valid && !w.noScope && results[i] != "=ok" {
 			run.OracleFail(id, "valid-credentials-rejected", fmt.Sprintf("concurrent mix %d (cache %s): request %d to %s holds valid credentials but ended with %s", hseed, flavour, i, jb.g.host, results[i]), rep)
 		}
 	}
